@@ -288,4 +288,4 @@ def run(ctx):
             ev.count("surrogate_cannot_run")
         return f
 
-    ctx.campaign("main", join_cases(), oracle, max_examples=ctx.n(500, 96000))
+    ctx.campaign("main", join_cases(), oracle, max_examples=ctx.n(900, 96000))
